@@ -134,25 +134,44 @@ def run(ctx):
     check_value(ctx, "Timing", Timing.empty, tobs)
     # ---- scale modes, property dictionaries -----------------------------------------------------------------------
     check_value(ctx, "ScaleMode", NO_SCALING, lambda s: repr(s))
-    for g, o in ((2.0, 1.0), (0.0, -3.5), (1e300, 1e-300)):
-        check_value(ctx, "ScaleMode", LinearScaleMode(g, o), lambda s: (type(s).__name__, s.gain, s.offset))
+    # values that are equal but not the same (signs of zero, int / float / bool spellings) are copied one after the other in this one
+    # process: each copy must be the copy of ITS original (observed through repr, which shows the sign of a zero and the type)
+    smobs = lambda s: (type(s).__name__, repr(s.gain), repr(s.offset), type(s.gain).__name__, type(s.offset).__name__)  # noqa: E731
+    for g, o in ((2.0, 1.0), (0.0, -3.5), (1e300, 1e-300), (2.0, 0.0), (2.0, -0.0), (-0.0, 1.25), (0.0, 1.25), (2, 0), (True, False), (2.0, 0.0), (-2.0, -0.0),
+                 (np.float64(2.0), np.float32(-0.0)), (5e-324, -5e-324)):
+        sm_ = LinearScaleMode(g, o)
+        check_value(ctx, "ScaleMode", sm_, smobs)
+        wsm = AnalogWaveform.from_array_1d(np.array([-0.0, 0.0, 1.5, -2.0]), np.float64, scale_mode=sm_)
+        check_value(ctx, "AnalogWaveform(scale mode with signed zeros)", wsm,
+                    lambda w_: (smobs(w_.scale_mode), [repr(float(z)) for z in w_.scaled_data], w_.raw_data.tobytes()))
     for d in ({}, {"a": 1}, {"NI_ChannelName": "x", "b": 2.5, "c": True, "d": "é"}):
         def mut(e):
             e["zz"] = 1
         check_value(ctx, "ExtendedPropertyDictionary", ExtendedPropertyDictionary(d), lambda e: list(e.items()), mut)
     # ---- Scalar / Vector / XYData ------------------------------------------------------------------------------------
-    for v in (True, False, 0, -5, 10**30, 1.5, float("inf"), "", "volts é"):
+    for v in (True, False, 0, -5, 10**30, 1.5, float("inf"), "", "volts é", 1, 1.0, True, 0.0, -0.0, 0, False, 2**63, 2.0**63, "1", np.float64(-0.0)):
         for units in ("", "V"):
-            check_value(ctx, "Scalar", Scalar(v, units), lambda s: (type(s.value).__name__, s.value, s.units, list(s.extended_properties.items())))
+            check_value(ctx, "Scalar", Scalar(v, units), lambda s: (type(s.value).__name__, repr(s.value), s.units, list(s.extended_properties.items())))
     vecs = [Vector([1, 2, 3], "A"), Vector([True, False]), Vector([1.5, 2.5]), Vector(["a", "b"]), Vector([], value_type=float),
             Vector([1, True, 2])]
     emptied = Vector([1, 2]); del emptied[:]
     boolfirst = Vector([1, True]); del boolfirst[0]
     boolfirst2 = Vector([1, True, 2]); del boolfirst2[0]
     vecs += [emptied, boolfirst, boolfirst2]
+    # long vectors (whatever a compact encoding would do with them): 64-bit edge values mixed with small ones, huge ints, signed zeros,
+    # NaN-free floats of every magnitude, bools inside an int vector, long str vectors
+    edge = [0, 1, -1, 255, 2 ** 31, -2 ** 31, 2 ** 32 - 1, 2 ** 53 + 1, 2 ** 63 - 1, 2 ** 63, 2 ** 63 + 1, 2 ** 64 - 1, -2 ** 63, -2 ** 63 - 1, 2 ** 64, 10 ** 30]
+    for nrep in (2, 3, 7):
+        vecs.append(Vector((edge[:12] + edge[12:13]) * nrep))                 # everything inside [-2**63, 2**64)
+        vecs.append(Vector(edge * nrep))                                        # with values beyond 64 bits
+        vecs.append(Vector([2 ** 63 + k for k in range(16 * nrep)]))           # all in [2**63, 2**64)
+        vecs.append(Vector([1, True, 2 ** 63, False] * (8 * nrep)))
+        vecs.append(Vector([0.0, -0.0, 1e-320, 1e308, -2.5, 2.0 ** 63] * (6 * nrep)))
+        vecs.append(Vector([True, False] * (16 * nrep)))
+        vecs.append(Vector([str(k) for k in range(33 * nrep)]))
 
     def vobs(v):
-        return ([(type(x).__name__, x) for x in v], v.units, v._value_type.__name__, list(v.extended_properties.items()))
+        return ([(type(x).__name__, repr(x)) for x in v], v.units, v._value_type.__name__, list(v.extended_properties.items()))
 
     def vmut(v):
         v.append({"int": 7, "bool": True, "float": 1.0, "str": "q"}[v._value_type.__name__])
